@@ -4,6 +4,7 @@ package pool
 
 import (
 	"sync"
+	"sync/atomic"
 	"unsafe"
 
 	"github.com/IrineSistiana/bytespool"
@@ -34,6 +35,12 @@ type verifBufState struct {
 	id   int
 	held bool
 }
+
+// VerifPassThrough switches the poisoning and the quarantine off (the registry
+// and the events stay): released buffers go straight back to the pool as they
+// do without the tag, so that a read of released memory sees what it would see
+// in production - another request's data - instead of the poison pattern.
+var VerifPassThrough atomic.Bool
 
 var verifBufs = struct {
 	m      sync.Mutex
@@ -90,6 +97,11 @@ func verifReleaseBuf(b Buffer) {
 	}
 	st.held = false
 	verifhook.Ev("buf.release", st.id, true)
+	if VerifPassThrough.Load() {
+		verifBufs.m.Unlock()
+		bytespool.Release(b)
+		return
+	}
 	full := b[:cap(b)]
 	for i := range full {
 		full[i] = verifPoison
